@@ -34,11 +34,23 @@ def check_node(N, ctx, is_root, src=None):
     it = list(iter(N))
     if [R.key(x) for x in it] != ck:
         return fail('iteration', '%s: iteration does not follow contents' % short(str(N), 60))
-    for i in list(range(len(ck))) + ([-1] if ck else []):
+    for i in range(-len(ck), len(ck)):
         if R.key(N[i]) != ck[i]:
             return fail('indexing', '%s: node[%d] is not contents[%d]' % (short(str(N), 60), i, i))
+    # slices follow contents too: same elements, same kind of object
+    sliced = []
+    for sl in (slice(None), slice(1, None), slice(None, -1), slice(None, None, 2),
+               slice(None, None, -1), slice(1, 3), slice(-2, None)):
+        got = N[sl]
+        ctx.count('slices_checked')
+        if [R.key(x) for x in got] != ck[sl] or \
+                [isinstance(x, TexNode) for x in got] != [isinstance(x, TexNode) for x in contents[sl]]:
+            return fail('indexing', '%s: node[%r] is not contents[%r] (%d vs %d elements, kinds %r)'
+                        % (short(str(N), 60), sl, sl, len(got), len(ck[sl]),
+                           [type(x).__name__ for x in got][:4]))
+        sliced += list(got)
     for view, seq in (('contents', contents), ('children', children), ('iter', it),
-                      ('index', [N[i] for i in range(len(ck))])):
+                      ('index', [N[i] for i in range(-len(ck), len(ck))]), ('slice', sliced)):
         for x in seq:
             if isinstance(x, TexNode):
                 ctx.count('parent_links_checked')
